@@ -3,7 +3,8 @@
 cd "$(dirname "$0")"
 TIER=${1:-quick}; SEED=${2:-1}; JOBS=${3:-4}
 IDS=$(python3 -c "import json;print(' '.join(c['property_id'] for c in json.load(open('MANIFEST.json'))['checks']))")
-mkdir -p .build/runall
-run() { id=$1; VERIF_SEED=$SEED ./check $id $TIER > .build/runall/$id.log 2>&1; echo "$id rc=$? $(grep -E '^(OK|VIOLATION|INCONCLUSIVE)' .build/runall/$id.log | tail -1 | cut -c1-160)"; grep -E '^KNOWN-FINDING' .build/runall/$id.log | cut -c1-160; }
-export -f run; export SEED TIER
+LOGDIR=.build/runall.$TIER.$SEED.$$
+mkdir -p $LOGDIR
+run() { id=$1; VERIF_SEED=$SEED ./check $id $TIER > $LOGDIR/$id.log 2>&1; echo "$id rc=$? $(grep -E '^(OK|VIOLATION|INCONCLUSIVE)' $LOGDIR/$id.log | tail -1 | cut -c1-160)"; grep -E '^KNOWN-FINDING' $LOGDIR/$id.log | cut -c1-160; }
+export -f run; export SEED TIER LOGDIR
 echo $IDS | tr ' ' '\n' | xargs -P $JOBS -I{} bash -c 'run {}'
